@@ -347,3 +347,24 @@ VARIANTS += [
     V('G-rf-31', 'E', ALL, WK, 'Worker._start_single.get_input', r'uid, x = z\n', 'uid = z[0]\n                x = z[1]\n'),
     V('G-rf-32', 'E', ALL, ST, 'Buffer._finalize', r'while self\._worker\.is_alive\(\):', 'worker = self._worker\n        while worker.is_alive():'),
 ]
+
+
+# ---------------------------------------------------------------------- rules added after the second seeding round
+VARIANTS += [
+    V('C06-M20', 'M', ('C06',), SV, 'Server._enqueue', r'(\n        with self\._pipeline_notfull:\n(\s+)while len\(pipeline\) >= self\._capacity:\n(?:\s+#[^\n]*\n)*)\s+if backpressure:\n\s+raise ServerBacklogFull\(len\(pipeline\)\)\n', r'\n        if backpressure and len(pipeline) >= self._capacity:\n            raise ServerBacklogFull(len(pipeline))\n\1', ('C06-7',), note='seeded C06-r2m1 shape'),
+    V('C06-M21', 'M', ('C06',), SV, 'AsyncServer._enqueue', r'asyncio\.wait_for\(self\._pipeline_notfull\.wait\(\), t\)', 'asyncio.wait_for(self._pipeline_notfull.wait(), timeout * 0.99)', ('C06-8',), note='seeded C06-r2m2 shape'),
+    V('C06-M22', 'M', ('C06',), SV, 'Server._enqueue', r'self\._pipeline_notfull\.wait\(t\)', 'self._pipeline_notfull.wait(timeout)', ('C06-8',)),
+    V('C06-M23', 'M', ('C06',), SV, 'AsyncServer._enqueue', r'if backpressure:\n(\s+)raise ServerBacklogFull\(len\(pipeline\)\)', r'if backpressure and timeout < 1:\n\1raise ServerBacklogFull(len(pipeline))', ('C06-7',)),
+    V('C06-E20', 'E', ALL, SV, 'Server._enqueue', r't = timeout \* 0\.99 - \(perf_counter\(\) - t0\)', 'elapsed = perf_counter() - t0\n                t = timeout * 0.99 - elapsed'),
+    V('C04-M20', 'M', ('C04', 'C15'), RE, 'RemoteException.__init__', r'if isinstance\(z\[i\], BaseException\):', 'if isinstance(z[i], BaseException) and z[i].__traceback__ is not None:', ('C04-7', 'C15-5'), note='seeded C04-r2m1 shape'),
+    V('C15-M20', 'M', ('C15', 'C04'), RE, 'RemoteException.__init__', r'if isinstance\(exc, EnsembleError\):', 'if isinstance(exc, EnsembleError) and exc.__traceback__ is None:', ('C15-5', 'C04-7'), note='seeded C15-m1 shape'),
+    V('C15-M21', 'M', ('C15',), RE, '_rebuild_exception', r'(\n    )exc\.__cause__ = RemoteTraceback\(tb\)', r'\1if exc.__cause__ is None:\1    exc.__cause__ = RemoteTraceback(tb)', ('C15-1',), note='seeded C15-m2 shape'),
+    V('C15-E20', 'E', ALL, RE, 'RemoteException.__init__', r'if isinstance\(z\[i\], BaseException\):', 'if isinstance(z[i], (BaseException, RemoteTraceback)):', note='wider class tuple'),
+    V('C04-M21', 'M', ('C04', 'C09'), WK, 'Worker._start_single.get_input', r'if not isinstance\(x, \(Exception, RemoteException\)\):', 'if not isinstance(x, Exception):', ('C04-3', 'C09-1'), note='seeded C04-r2m2 shape'),
+    V('C02-M20', 'M', ('C02', 'C04'), SL, 'SwitchServlet._enqueue', r'\n\s+if isinstance\(x, BaseException\):\n\s+x = RemoteException\(x\)', '', ('C02-7', 'C04-3'), note='seeded C02-r2m1 shape'),
+    V('C05-M20', 'M', ('C05',), SA, 'SyncIter._worker', r'asyncio\.run\(main\(\)\)', 'loop = asyncio.new_event_loop()\n        try:\n            loop.run_until_complete(main())\n        finally:\n            loop.close()', ('C05-6',), note='seeded C05-r2m2 shape'),
+    V('C05-E20', 'E', ALL, SA, 'AsyncBuffer._run_worker', r'asyncio\.run\(main\(\)\)', 'loop = asyncio.new_event_loop()\n        try:\n            loop.run_until_complete(main())\n        finally:\n            loop.run_until_complete(loop.shutdown_asyncgens())\n            loop.close()', note='explicit equivalent of asyncio.run'),
+    V('C14-M20', 'M', ('C14',), SP, 'Server.serve_client', r'(send\(msg\)\n\s+)except Exception:', r'\1except TypeError:', ('C14-5',), note='seeded C14-m1 shape'),
+    V('C14-M21', 'M', ('C14', 'C13'), SP, 'Server.create', r'if ident not in self\.id_to_refcount:\n\s+(self\.id_to_refcount\[ident\] = 0)', r'\1', ('C14-6', 'C13-4'), note='seeded C14-m2 / C13-m1 shape'),
+    V('C07-M20', 'M', ('C07', 'C05'), ST, 'fifo_stream', r'tasks = SingleLane\(capacity \+ 1\)', 'tasks = SingleLane(capacity)', ('C07-5', 'C05-4'), note='seeded C07-r2m2 shape'),
+]
